@@ -24,10 +24,13 @@ STUBS = []
 ASSUMPTIONS = [
     "index sizes are integers in [1, D] (D in bounds); cost_cap is an integer in [1, 64]",
     "objective strings: flops, size, write, max, combo (factor 64), combo-2, limit (factor 64), limit-2",
+    "dedicated items: an unrelated request (solver-chosen objective string, incl. other factors) is answered by the same process just before the checked one",
 ]
 OUTSIDE = ["n > 4 (quick) / n > 5 (thorough)", "sizes above D", "disconnected inputs (optimize_remaining_by_size; well-formedness only, C05)", "cotengrust accelerated variant"]
 
 OBJECTIVES = ["flops", "size", "write", "max", "combo", "combo-2", "limit", "limit-2"]
+# an unrelated request answered by the same process just before (parsers / registries / lru caches are process-wide)
+PREVIOUS = [None, "combo-2", "limit-2", "combo-256", "limit-16", "combo", "limit", "flops", "size"]
 
 
 def bounds(tier):
@@ -90,6 +93,10 @@ def items(tier, seed):
                 obj = OBJECTIVES[(si * 3 + li) % len(OBJECTIVES)]
                 for outer in (False, True):
                     its.append({"inputs": list(s[0]), "output": s[1], "obj": obj, "outer": outer, "D": 16, "mode": "one", "label": lab, "pattern": (li + si) % 2, "tier": tier})
+        for si, s in enumerate(sk4[:3]):
+            labels = skel.all_labels(s[0])
+            for oi, obj in enumerate(("combo", "limit", "combo-2", "limit-2")):
+                its.append({"inputs": list(s[0]), "output": s[1], "obj": obj, "outer": bool((si + oi) % 2), "D": 16, "mode": "one", "label": labels[(si + oi) % len(labels)], "pattern": oi % 2, "tier": tier, "previous": True})
     else:
         sk3 = [s for s in skel.skeletons(3, 3, 4, 2, max_positions=8, outputs="unordered") if admissible(*s)]
         sk4 = [s for s in skel.skeletons(4, 2, 4, 1, max_positions=7, outputs="unordered") if admissible(*s)] + [s for s in FIXED4 if admissible(*s)]
@@ -104,6 +111,12 @@ def items(tier, seed):
                     for lab in labels:
                         for pat in (0, 1):
                             its.append({"inputs": list(s[0]), "output": s[1], "obj": obj, "outer": outer, "D": 32, "mode": "one", "label": lab, "pattern": pat, "tier": tier})
+        for si, s in enumerate([x for x in FIXED4 if admissible(*x)]):
+            labels = skel.all_labels(s[0])
+            for obj in OBJECTIVES:
+                for outer in (False, True):
+                    for lab in labels[:2]:
+                        its.append({"inputs": list(s[0]), "output": s[1], "obj": obj, "outer": outer, "D": 16, "mode": "one", "label": lab, "pattern": si % 2, "tier": tier, "previous": True})
         for s in FIXED4[:4]:
             for obj in ("flops", "size", "write", "max"):
                 for outer in (False, True):
@@ -158,6 +171,11 @@ def run_item(item, rec):
     case = dict(inputs=list(inputs), output=output, obj=obj, outer=outer, D=D, mode=item["mode"], label=item.get("label"), pattern=item.get("pattern"))
 
     def harness(ctx):
+        prev = None
+        if item.get("previous"):
+            prev = PREVIOUS[symx.choose("previous_request", len(PREVIOUS))]
+            if prev is not None:
+                optimize_optimal(("ab", "bc", "ca"), "", {"a": 2, "b": 3, "c": 4}, minimize=prev)
         if item["mode"] == "all":
             size = {c: symx.sym_int("d_" + c, 1, D) for c in labels}
         else:
@@ -187,7 +205,7 @@ def run_item(item, rec):
         def viol(m):
             sz = {c: symx.eval_model(m, size[c]) for c in labels}
             sz = {c: int(sz[c]) for c in sz}
-            return dict(case=case, size=sz, cap=symx.eval_model(m, cap), returned=[list(p) for p in ssa], signature=["C09", list(inputs), output, obj, outer])
+            return dict(case=case, size=sz, cap=symx.eval_model(m, cap), returned=[list(p) for p in ssa], previous=prev, signature=["C09", list(inputs), output, obj, outer, prev])
 
         rec.refute(ctx, z3.Or(bads), f"optimal[{obj}] <= every competitor tree", viol)
         return ssa
@@ -244,7 +262,13 @@ def replay(v):
     warnings.simplefilter("ignore")
     case = v["case"]
     size = {k: int(x) for k, x in v["size"].items()}
+    if v.get("previous"):
+        from cotengra.pathfinders.path_basic import optimize_optimal
+
+        optimize_optimal(("ab", "bc", "ca"), "", {"a": 2, "b": 3, "c": 4}, minimize=v["previous"])
     ok, detail = brute(tuple(case["inputs"]), case["output"], size, case["obj"], case["outer"], int(v["cap"]))
+    if not ok and v.get("previous"):
+        detail = f"after an unrelated optimal request with minimize={v['previous']!r} in the same process: " + detail
     return (not ok), detail
 
 
